@@ -5,6 +5,7 @@ import re
 import subprocess
 
 import vlib
+from props import client_common
 
 TARGETS = ["theories/Properties/C18.v"]
 TRUSTED = [
@@ -65,6 +66,7 @@ def classify(fail_line):
 
 def run(ctx):
     thorough = ctx.tier == "thorough"
+    client_common.repo_override(ctx)
     ctx.translate()
     res = ctx.coq_build(TARGETS)
     ctx.coq_hygiene(TARGETS, res)
@@ -141,6 +143,7 @@ def replay(ctx, path):
     if obj.get("kind") != "client_store":
         print(json.dumps(obj, indent=1))
         return 1
+    client_common.repo_override(ctx)
     if not (ctx.cargo_build(["client_store"]) and ctx.ocaml_build()):
         return 2
     cf = os.path.join(ctx.work, "replay_case.txt")
